@@ -93,7 +93,7 @@ ANCHORS = [
     ("COPY_REMOVES_DEST_SYMLINK", "src/transport/local.rs", r"impl Transport for LocalTransport \{[\s\S]*", "count:remove_if_symlink\\(dest\\)\\.await\\?;"),
     ("UPDATE_ROUTES_SYMLINKS_TO_HANDLER", "src/sync/transfer.rs", r"pub async fn update\([\s\S]*?(if source\.is_symlink \{\s*return self\.handle_symlink\(source, dest_path\)\.await;)", "flag"),
     ("CREATE_SYMLINK_REPLACES_ENTRY", "src/transport/local.rs", r"async fn create_symlink\([\s\S]*?(if let Ok\(meta\) = tokio::fs::symlink_metadata\(dest\)\.await \{\s*if !meta\.is_dir\(\) \{\s*tokio::fs::remove_file\(dest\))", "flag"),
-    ("PLANNER_FORCES_UPDATE_OVER_DEST_LINK", "src/sync/mod.rs", r"(matches!\(task\.action, SyncAction::Skip \| SyncAction::Create\)\s*&& task\.source\.as_ref\(\)\.is_some_and\(\|f\| !f\.is_symlink\)\s*&& matches!\(self\.transport\.read_link\(&task\.dest_path\)\.await, Ok\(Some\(_\)\)\))", "flag"),
+    ("PLANNER_FORCES_UPDATE_OVER_DEST_LINK", "src/sync/mod.rs", r"(matches!\(task\.action, SyncAction::Skip \| SyncAction::Create\)\s*&& task\.source\.as_ref\(\)\.is_some_and\(\|f\| !f\.is_symlink\)\s*(?:// [^\n]*\s*)*&& matches!\(\s*self\.transport\.read_link\(&task\.dest_path\)\.await,\s*Ok\(Some\(_\)\) \| Err\(_\)\s*\))", "flag"),
     # C18: persistence mechanisms
     ("CHECKSUMDB_LOOKUP_GUARDS", "src/sync/checksumdb.rs", r"SELECT checksum_type, checksum FROM checksums\s*WHERE ([^\"]*)\"", "str_ws"),
     # what the end-of-run block files under the SOURCE key (path, mtime, size): the checksum of which file?
@@ -117,7 +117,7 @@ ANCHORS = [
     ("XFER_INPLACE_PREALLOCATES", "src/transport/local.rs", r"^\s*(temp_file\.set_len\(source_size\))", "flag"),
     ("XFER_MTIME_BEFORE_RENAME", "src/transport/local.rs",
         (r"filetime::set_file_mtime\(\s*&temp_dest,", r"fs::rename\(&temp_dest, &dest\)"), "before"),
-    ("TEMP_SUFFIX", "src/transport/local.rs", r'name\.push\("([^"]+)"\);', "str"),
+    ("TEMP_SUFFIX", "src/temp_file.rs", r'name\.push\("([^"]+)"\);', "str"),
 ]
 
 def extract(repo):
